@@ -19,6 +19,7 @@ import (
 	"strings"
 	"time"
 
+	"github.com/rogpeppe/go-internal/internal/verifhook"
 	"github.com/rogpeppe/go-internal/lockedfile"
 )
 
@@ -158,6 +159,7 @@ func (c *Cache) get(id ActionID) (Entry, error) {
 		return missing(err)
 	}
 	defer f.Close()
+	verifhook.At("cache.get.afterOpen")
 	entry := make([]byte, entrySize+1) // +1 to detect whether f is too long
 	if n, err := io.ReadFull(f, entry); n > entrySize {
 		return missing(errors.New("too long"))
@@ -218,6 +220,7 @@ func (c *Cache) GetFile(id ActionID) (file string, entry Entry, err error) {
 	if err != nil {
 		return "", Entry{}, err
 	}
+	verifhook.At("cache.getFile.afterGet")
 	file = c.OutputFile(entry.OutputID)
 	info, err := os.Stat(file)
 	if err != nil {
@@ -237,6 +240,7 @@ func (c *Cache) GetBytes(id ActionID) ([]byte, Entry, error) {
 	if err != nil {
 		return nil, entry, err
 	}
+	verifhook.At("cache.getBytes.afterGet")
 	data, _ := os.ReadFile(c.OutputFile(entry.OutputID))
 	if sha256.Sum256(data) != entry.OutputID {
 		return nil, entry, &entryNotFoundError{Err: errors.New("bad checksum")}
@@ -406,7 +410,9 @@ func (c *Cache) putIndexEntry(id ActionID, out OutputID, size int64, allowVerify
 	if err != nil {
 		return err
 	}
+	verifhook.At("cache.putIndex.afterOpen")
 	_, err = f.WriteString(entry)
+	verifhook.At("cache.putIndex.afterWrite")
 	if err == nil {
 		// Truncate the file only *after* writing it.
 		// (This should be a no-op, but truncate just in case of previous corruption.)
@@ -426,6 +432,7 @@ func (c *Cache) putIndexEntry(id ActionID, out OutputID, size int64, allowVerify
 		os.Remove(file)
 		return err
 	}
+	verifhook.At("cache.putIndex.afterClose")
 	os.Chtimes(file, c.now(), c.now()) // mainly for tests
 
 	return nil
@@ -457,12 +464,14 @@ func (c *Cache) put(id ActionID, file io.ReadSeeker, allowVerify bool) (OutputID
 	}
 	var out OutputID
 	h.Sum(out[:0])
+	verifhook.At("cache.put.afterHash")
 
 	// Copy to cached output file (if not already present).
 	if err := c.copyFile(file, out, size); err != nil {
 		return out, size, err
 	}
 
+	verifhook.At("cache.put.afterCopy")
 	// Add to cache index.
 	return out, size, c.putIndexEntry(id, out, size, allowVerify)
 }
@@ -478,6 +487,7 @@ func (c *Cache) PutBytes(id ActionID, data []byte) error {
 func (c *Cache) copyFile(file io.ReadSeeker, out OutputID, size int64) error {
 	name := c.fileName(out, "d")
 	info, err := os.Stat(name)
+	verifhook.At("cache.copyFile.afterStat")
 	if err == nil && info.Size() == size {
 		// Check hash.
 		if f, err := os.Open(name); err == nil {
@@ -503,6 +513,7 @@ func (c *Cache) copyFile(file io.ReadSeeker, out OutputID, size int64) error {
 		return err
 	}
 	defer f.Close()
+	verifhook.At("cache.copyFile.afterOpen")
 	if size == 0 {
 		// File now exists with correct size.
 		// Only one possible zero-length file, so contents are OK too.
@@ -525,6 +536,7 @@ func (c *Cache) copyFile(file io.ReadSeeker, out OutputID, size int64) error {
 		f.Truncate(0)
 		return err
 	}
+	verifhook.At("cache.copyFile.afterCopyN")
 	// Check last byte before writing it; writing it will make the size match
 	// what other processes expect to find and might cause them to start
 	// using the file.
@@ -541,10 +553,12 @@ func (c *Cache) copyFile(file io.ReadSeeker, out OutputID, size int64) error {
 	}
 
 	// Commit cache file entry.
+	verifhook.At("cache.copyFile.beforeCommit")
 	if _, err := f.Write(buf); err != nil {
 		f.Truncate(0)
 		return err
 	}
+	verifhook.At("cache.copyFile.afterCommit")
 	if err := f.Close(); err != nil {
 		// Data might not have been written,
 		// but file may look like it is the right size.
